@@ -168,6 +168,29 @@ theorem phRun_pos (ph : Nat) (s : CState Content MetaRec WalRec LogRec) (ct : Li
   | nil => exact h
   | cons ev ct ih => exact ih _ _ (nextPhase_pos ph _ ev h)
 
+theorem nextPhase_le_two (ph : Nat) (s' : CState Content MetaRec WalRec LogRec) (ev : CEv Content MetaRec WalRec LogRec)
+    (h : ph ≤ 2) : nextPhase ph s' ev ≤ 2 := by
+  cases ev <;> simp only [nextPhase] <;> (try split) <;> omega
+
+theorem phRun_le_two (ph : Nat) (s : CState Content MetaRec WalRec LogRec) (ct : List (CEv Content MetaRec WalRec LogRec))
+    (h : ph ≤ 2) : phRun ph s ct ≤ 2 := by
+  induction ct generalizing ph s with
+  | nil => exact h
+  | cons ev ct ih => exact ih _ _ (nextPhase_le_two ph _ ev h)
+
+/-- a trace that contains the Begin of a meta write does not end in phase 0 -/
+theorem phRun_pos_of_meta (cpre crest : List (CEv Content MetaRec WalRec LogRec)) (id : Nat) (m : MetaRec) :
+    ∀ (ph : Nat) (s : CState Content MetaRec WalRec LogRec),
+      1 ≤ phRun ph s (cpre ++ CEv.effBegin id (.setMeta m) :: crest) := by
+  induction cpre with
+  | nil =>
+    intro ph s
+    simp only [List.nil_append, phRun]
+    apply phRun_pos
+    simp only [nextPhase, Eff.isMeta, true_and]
+    split <;> omega
+  | cons ev cpre ih => intro ph s; exact ih _ _
+
 /-- once the switch-over was issued, an accepted trace contains no further meta write -/
 theorem no_meta_after (ph : Nat) (s : CState Content MetaRec WalRec LogRec)
     (ct : List (CEv Content MetaRec WalRec LogRec)) (hph : 1 ≤ ph) (h : cAll (accChk A0 ok) ph s ct) :
